@@ -66,8 +66,18 @@ def run_X1(rep, g):
              'of those parse_encoded_value / parse_encoded_pointer have an arm for (so their unreachable!() cannot be reached), and every '
              'call of parse_encoded_pointer-family decoding is preceded by the validity check')
     val = g.fn('constants::DwEhPe::is_valid_encoding')
-    fmt_ok, _ = _accepted_consts(g, val, 'constants::DwEhPe', 0)
-    app_ok, _ = _accepted_consts(g, val, 'constants::DwEhPe', 1)
+    try:
+        fmt_ok, _ = _accepted_consts(g, val, 'constants::DwEhPe', 0)
+        app_ok, _ = _accepted_consts(g, val, 'constants::DwEhPe', 1)
+    except MissingAnchor as e:
+        # the obligation "accepted ⊆ handled" needs the accepted set; a validator that no longer enumerates the
+        # constants it lets through (a mask test, a range) leaves it unproven — reported like any unproven site
+        rep.bad('X1', 'validator-enumerates', 'DwEhPe::is_valid_encoding no longer decides by matching the DW_EH_PE_* format and application '
+                'constants (%s): the set of encodings it accepts cannot be enumerated, so "accepted ⊆ handled by parse_encoded_value/pointer" is not established' % e,
+                val.loc())
+        return
+    rep.ok('X1', 'validator-enumerates', 'is_valid_encoding matches on %d format and %d application constants' % (len(fmt_ok), len(app_ok)), val.loc(),
+           why='accepted sets enumerable')
     pv = g.fn('read::cfi::parse_encoded_value')
     pp = g.fn('read::cfi::parse_encoded_pointer')
     fmt_handled, _ = _accepted_consts(g, pv, 'constants::DwEhPe', 0)
@@ -358,4 +368,68 @@ def run_D9(rep, g, prefixes=('write::cfi::',), floor=3):
                                 % (fn.fmt_op(v_op, 4), str(nm).split('::')[-1], r, free), fn.loc(st[3]))
                     break
     rep.floor('D9', 'packed opcode operands', n, floor)
+    return n
+
+
+def run_X_size(rep, g):
+    """X-size: the fixed size `get_attribute_size` advertises for a form (used by `skip_attributes` and `AttributeSpecification::size`)
+    agrees with what `parse_attribute` consumes for that form — two sibling tables over the same constants."""
+    from . import spec as SP
+    from . import arms as A
+    from .specs_registry import SPECS
+    rep.rule('X-size', 'sibling agreement per DW_FORM: the size class get_attribute_size returns (constant k, address size, offset size, or None) '
+             'equals the operand the attribute reader consumes for the form (Bk, ADDR/OFFN, OFF; None only for LEB/string/block forms)')
+    fn = g.fn('read::abbrev::get_attribute_size')
+    sw, t, by, nvals = SP.const_arm_groups(g, fn, 'constants::DwForm', 0)
+    reader = SP.extract(g, next(s for s in SPECS if s['id'] == 'attr_parse'))
+    n = 0
+    for tgt, names in sorted(by.items()):
+        region = A.arm_blocks(fn, sw, tgt, nvals)
+        cls = set()
+        for b in region:
+            for st in fn.stmts(b):
+                if st[0] != 'a':
+                    continue
+                rv = st[2]
+                if rv[0] == 'agg' and rv[1][0] == 'adt' and rv[1][2] == 'None':
+                    cls.add('VAR')
+                for o in SP.rv_operands_all(rv):
+                    if o[0] == 'k' and isinstance(o[2], dict) and isinstance(o[2].get('v'), int) and not isinstance(o[2].get('v'), bool) \
+                            and g.strs[o[1]] == 'u8':
+                        cls.add(o[2]['v'])
+                    if o[0] in ('c', 'm'):
+                        for p in o[1][1:]:
+                            if isinstance(p, list) and p[0] == 'f' and p[2] == 'address_size':
+                                cls.add('ADDR')
+            tm = fn.term(b)
+            if tm['k'] == 'call' and tm['f'].get('name') == 'word_size':
+                cls.add('OFF')
+        for nm in names:
+            key = 'get_attribute_size|%s' % nm
+            if nm not in reader:
+                rep.bad('X-size', key, 'get_attribute_size has an arm for %s but the attribute reader has none' % nm, fn.loc())
+                continue
+            n += 1
+            rcls = set()
+            variable = False
+            for seq in reader[nm]:
+                if seq == []:
+                    rcls.add(0)
+                elif len(seq) == 1 and seq[0].startswith('B') and seq[0][1:].isdigit():
+                    rcls.add(int(seq[0][1:]))
+                elif seq in (['ADDR'], ['OFFN']):
+                    rcls.add('ADDR')
+                elif seq == ['OFF']:
+                    rcls.add('OFF')
+                else:
+                    variable = True
+            if cls == {'VAR'}:
+                rep.check('X-size', key, variable, 'advertised None; reader consumes %s' % reader[nm], fn.loc(),
+                          why='variable-length form on both sides')
+                continue
+            legacy = {'OFF'} if cls & {4, 8} else set()      # data4/data8 may be decoded as a section offset of the same width
+            okc = (not variable) and cls <= rcls and rcls <= (cls | legacy)
+            rep.check('X-size', key, okc, 'advertised size class %s; reader consumes %s' % (sorted(map(str, cls)), reader[nm]), fn.loc(),
+                      why='same operand width on both sides')
+    rep.floor('X-size', 'forms with an advertised size', n, 40)
     return n
